@@ -3,7 +3,7 @@ CONSTANTS
   Constructs = {"pp", "map", "gen"}
   Ns = {0, 1, 2, 3, 4}
   Ks = {1, 2, 3}
-  FKinds = {"err", "panicErr", "skip", "eof"}
+  FKinds = {"err", "skip", "eof"}
   MaxFaults = 2
   MaxFaultPos = 4
   OptSet <- OptsCore
